@@ -676,4 +676,57 @@ theorem startsWith_bit5_witness :
     strcaseStartsWith [65] [97] = .ok true := by
   refine ⟨by decide, by rfl, by rfl, by rfl, by rfl⟩
 
+/-! ## Call sites (seeds C18-r6-1, C18-r6-2) -/
+
+/-- regenerated from ptt/talk.go and ptt/bbs.go on every run: `myWrite` passes EVERY message through
+`cmsys.StripAnsi(prompt, cmsys.STRIP_ANSI_ALL)` (a statement of the function body itself, the only assignment of
+`msg`, which is what `myWriteMsg` gets); `CrossPost` first copies the title into the 65-byte field and then calls
+`TrimDBCS` on the field. A fast path around the stripping, or the two title statements in another order or
+shape, breaks this theorem. -/
+theorem callsite_facts :
+    Gen.C18Str.myWriteStripsUnconditionally = true ∧
+    Gen.C18Str.crossPostTitleStmts = ["copy(xFileHeader.Title[:], title)", "types.TrimDBCS(xFileHeader.Title[:])"] ∧
+    LAST_CALL_IN = 76 := by
+  decide +kernel
+
+/-- what the receiver's message queue holds (`LastCallIn`) never contains an ESC byte, whatever the sender's
+text — ESC not followed by `[`, a lone ESC at the end, ESC ESC included — and the call never faults. -/
+theorem lastCallIn_no_esc (prompt : List Nat) (hb : Bytes prompt) :
+    ∃ f, lastCallIn prompt = .ok f ∧ f.length = LAST_CALL_IN ∧ ESC ∉ f := by
+  obtain ⟨out, ho⟩ := strip_total prompt STRIP_ANSI_ALL hb
+  have hne := strip_all_no_esc prompt STRIP_ANSI_ALL hb (by decide +kernel) (by decide +kernel) out ho
+  refine ⟨copyInto LAST_CALL_IN out, by simp [lastCallIn, ho, bind, Except.bind, pure, Except.pure], by simp, ?_⟩
+  intro hm
+  simp only [copyInto, List.mem_append, List.mem_replicate] at hm
+  rcases hm with hm | ⟨_, hm⟩
+  · exact hne (List.mem_of_mem_take hm)
+  · exact ESC_ne_zero hm
+
+/-- the broken rule (seed C18-r6-1): stripping only texts that contain `ESC [` lets `hi ESC * s` through. -/
+theorem lastCallIn_fastpath_witness :
+    ∃ f, lastCallInFastPath [104, 105, 27, 42, 115] = .ok f ∧ ESC ∈ f ∧
+      lastCallIn [104, 105, 27, 42, 115] = .ok (copyInto LAST_CALL_IN [104, 105, 115]) := by
+  refine ⟨_, by rfl, by decide +kernel, by rfl⟩
+
+/-- the Title stored for a cross-posted article never ends in half a character: the call never faults, the
+field keeps its 65 bytes, and its C string is a whole number of characters — for every original title, in
+particular the 62–64 byte ones whose byte 60 is a lead byte (cut by the copy, repaired by TrimDBCS). -/
+theorem crossPostTitle_no_split (title : List Nat) :
+    ∃ f r us, crossPostTitle title = .ok f ∧ (∀ u ∈ us, u.ok) ∧
+      trimDBCS (copyInto (TTLEN + 1) (STR_FORWARD ++ [32] ++ cstr title)) = .ok (r, f) ∧ r = unitsBytes us := by
+  obtain ⟨us, buf, hok, hrun, _⟩ := trimDBCS_total (copyInto (TTLEN + 1) (STR_FORWARD ++ [32] ++ cstr title))
+  refine ⟨buf, unitsBytes us, us, ?_, hok, hrun, rfl⟩
+  unfold crossPostTitle
+  simp only [bind, Except.bind]
+  rw [hrun]; rfl
+
+set_option maxRecDepth 8000 in
+/-- the broken order (seed C18-r6-2) on a 62-byte title whose byte 60 is a lead byte: trimming the temporary and
+copying afterwards leaves the lead byte A4 as the 65th byte; the real order zeroes it. -/
+theorem crossPostTitle_order_witness :
+    (∃ f, crossPostTitleTrimFirst (List.replicate 60 97 ++ [164, 164]) = .ok f ∧ f.getLast? = some 164 ∧
+      dbcsFold f = DBCS_LEADING) ∧
+    (∃ f, crossPostTitle (List.replicate 60 97 ++ [164, 164]) = .ok f ∧ f.getLast? = some 0) := by
+  refine ⟨⟨_, by rfl, by decide +kernel, by decide +kernel⟩, ⟨_, by rfl, by decide +kernel⟩⟩
+
 end PttVerif.C18.Props
